@@ -73,6 +73,14 @@ class C20(E1Prop):
                 if job == 'create_branch':
                     api['kwargs'] = {'branch': 'development/%d.%d' % (
                         rng.choice([11, 12, 3]), rng.choice([0, 1]))}
+                    majors = [d.split('/')[1] for d in dests
+                              if d.startswith('development/') and
+                              '.' not in d.split('/')[1]]
+                    if majors and rng.random() < 0.6:
+                        # a minor of a major that has its major-only branch
+                        # (development/M sorts after every development/M.n)
+                        api['kwargs'] = {'branch': 'development/%s.%d' % (
+                            rng.choice(majors), rng.choice([1, 4, 7, 9]))}
                 seq.append(api)
                 seq.append({'op': 'deliver_all'})
                 for o in seq:
